@@ -286,6 +286,28 @@ def replay_case(arg):
                     if not interp.close(gv, tot, rtol=1e-6):
                         fail('Posterior', 'value_vs_documented_sum', dict(label=label, got=float(gv), expected=tot,
                                                                           n_obs=[len(obs_k[0]), len(obs_k[1])]))
+            # ---- the DEFAULT output-observable map (no dictionary given): outputs are matched to the observables of the SAME
+            # NAME, whatever else the table holds and whichever observable comes first -- a single-output model, the column
+            # holding its output's name, against the same problem with the map written out
+            if mode == 'indiv' and 'individual_without_measurements' not in feats:
+                with warnings.catch_warnings():
+                    warnings.simplefilter('ignore')
+                    one = base_model()
+                    one.set_outputs([OUTPUTS[0]])
+                    fr1 = frame.copy(deep=True)
+                    fr1['Observable'] = fr1['Observable'].replace({'Obs A': OUTPUTS[0]})
+                    pair = []
+                    for explicit in (False, True):
+                        c1 = chi.ProblemModellingController(one, [chi.GaussianErrorModel()])
+                        c1.set_data(fr1, output_observable_dict=({OUTPUTS[0]: OUTPUTS[0]} if explicit else None))
+                        c1.set_log_prior(pints.ComposedLogPrior(*pri[:c1.get_n_parameters()]))
+                        p1 = c1.get_log_posterior(individual=ids[0])
+                        pair.append((int(np.sum(p1.get_log_likelihood().n_observations())),
+                                     float(p1(np.array([1.1, 0.9, 0.7, 0.4])))))
+                cnt['evaluations'] = cnt.get('evaluations', 0) + 2
+                cnt['default_output_observable_map'] = 1
+                if pair[0][0] != pair[1][0] or not interp.close(pair[0][1], pair[1][1]):
+                    fail('Posterior', 'default_output_observable_map', dict(default=pair[0], written_out=pair[1]))
             if x is None or 'individual_without_measurements' in feats:
                 return fails, cnt            # (structure only, see above: the later stages evaluate posteriors)
             # ---- the data is set a SECOND time, without a dose table: nothing of the first dataset's regimens survives --
